@@ -15,6 +15,7 @@ import (
 	"verif/harness/c17"
 	"verif/harness/cr"
 	"verif/harness/cw"
+	"verif/harness/c18"
 	"verif/harness/c19"
 	"verif/harness/c20"
 )
@@ -72,6 +73,8 @@ func main() {
 		c16.Run(*out)
 	case "c17":
 		c17.Run(*out)
+	case "c18":
+		c18.Run(*out)
 	case "c19":
 		c19.Run(*out)
 	case "c20":
